@@ -1,9 +1,79 @@
 import Driver.Proto
+import ScrapliModel.Queue
 namespace Driver
-open Scrapli
+open Scrapli Scrapli.Queue
 
-/-- line-protocol handler for property C20 (arguments after the leading `c20` token) -/
+/-! line protocol for C20
+
+* `c20 seq <ops>` — `<ops>` is `.` (empty history) or comma separated tokens `e<hex>` (Enqueue),
+  `r<hex>` (Requeue), `d` (Dequeue), `a` (DequeueAll), `g` (GetDepth).
+  Answer: `<dom> <spec outs> <model outs> <model depth>:<model token>:<model slice length>`;
+  outs are `.` or comma separated `u` (no result), `n` (nil), `b<hex>`, `i<int>`; a model run that
+  faults ends its outs with `!panic` / `!deadlock`.
+* `c20 fifo <rets> <produced>` — `<rets>` is `.` or comma separated consumer results in call order:
+  `D<hex>` Dequeue→chunk, `n` Dequeue→nil, `A<hex>+<hex>+…` DequeueAll→these chunks, `N`
+  DequeueAll→nil, `R<hex>` Requeue(chunk), `G` GetDepth; `<produced>` a hex list. Answer: `ok <hex of
+  the remaining chunks, concatenated> <number remaining>` if the push-back reader `Conc.consume` of
+  theorem `conc_fifo` accepts, else `bad`.
+-/
+
+def c20ParseOp (t : String) : Option Op :=
+  match t.toList with
+  | ['d'] => some .deq
+  | ['a'] => some .deqAll
+  | ['g'] => some .depth
+  | 'e' :: h => (fromHex (String.ofList h)).map .enq
+  | 'r' :: h => (fromHex (String.ofList h)).map .req
+  | _ => none
+
+def c20ParseOps (s : String) : Option (List Op) :=
+  if s == "." then some [] else (s.splitOn ",").mapM c20ParseOp
+
+def c20ShowOut : Out → String
+  | .unit => "u"
+  | .bytes none => "n"
+  | .bytes (some b) => "b" ++ toHex b
+  | .num d => "i" ++ toString d
+
+def c20ShowOuts (l : List String) : String :=
+  if l.isEmpty then "." else ",".intercalate l
+
+/-- the sequential model run, keeping the results obtained before a fault -/
+def c20Trace : List Op → Q → List String → List String × Q
+  | [], q, acc => (acc.reverse, q)
+  | o :: os, q, acc =>
+    match Seq.apply o q with
+    | .ok (r, q') => c20Trace os q' (c20ShowOut r :: acc)
+    | .error .panic => (("!panic" :: acc).reverse, q)
+    | .error .deadlock => (("!deadlock" :: acc).reverse, q)
+
+def c20ParseRet (t : String) : Option Conc.Ret :=
+  match t.toList with
+  | ['n'] => some (.deq none)
+  | ['N'] => some (.deqAll none)
+  | ['G'] => some (.depth 0)
+  | 'D' :: h => (fromHex (String.ofList h)).map fun b => .deq (some b)
+  | 'R' :: h => (fromHex (String.ofList h)).map .req
+  | 'A' :: h => (((String.ofList h).splitOn "+").mapM fromHex).map fun cs => .deqAll (some cs)
+  | _ => none
+
 def handleC20 : List String → String
+  | ["seq", ops] =>
+    match c20ParseOps ops with
+    | some ops =>
+      let spec := (Spec.run ops []).1.map c20ShowOut
+      let (outs, q) := c20Trace ops Queue.new []
+      let tok := match q.token with | some d => toString d | none => "none"
+      s!"1 {c20ShowOuts spec} {c20ShowOuts outs} {q.depth}:{tok}:{q.queue.length}"
+    | none => "bad-op"
+  | ["fifo", rets, produced] =>
+    let rs := if rets == "." then some [] else (rets.splitOn ",").mapM c20ParseRet
+    match rs, hexList produced with
+    | some rs, some prod =>
+      match Conc.consume (rs.flatMap Conc.Ret.events) prod with
+      | some rest => s!"ok {toHex rest.flatten} {rest.length}"
+      | none => "bad"
+    | _, _ => "bad-op"
   | _ => "bad-op"
 
 end Driver
